@@ -162,6 +162,47 @@ pub fn triples(tier: Tier) -> Vec<Triple> {
             });
         }
     }
+    // (iii-b) boundary-shifted splits of one LONG concatenation (pieces around 128/256 bytes, where buffered or
+    // block-wise hashing of the transcript could lose a length prefix)
+    let x: Vec<u8> = (0..600u32).map(|i| (i % 251) as u8).collect();
+    let mut lsp = vec![];
+    let (is, js): (Vec<usize>, Vec<usize>) = if tier.thorough() { (vec![127, 128, 129, 130, 255, 256, 257], vec![128, 129, 130]) } else { (vec![128, 129, 256], vec![128, 129]) };
+    for i in is {
+        for j in js.iter().map(|d| i + d) {
+            lsp.push((x[..i].to_vec(), x[i..j].to_vec(), x[j..].to_vec()));
+        }
+    }
+    for a in &lsp {
+        for b in &lsp {
+            out.push(Triple {
+                fam: "long-splits",
+                r_idu: V::B(a.1.clone()),
+                r_ids: V::B(a.2.clone()),
+                r_cid: al::CID_DEFAULT.to_vec(),
+                s_ctx: V::B(a.0.clone()),
+                s_idu: V::B(a.1.clone()),
+                s_ids: V::B(a.2.clone()),
+                s_cid: al::CID_DEFAULT.to_vec(),
+                c_ctx: V::B(b.0.clone()),
+                c_idu: V::B(b.1.clone()),
+                c_ids: V::B(b.2.clone()),
+            });
+            // the registration may also have used the client's split (then only the 3DH transcript separates them)
+            out.push(Triple {
+                fam: "long-splits",
+                r_idu: V::B(b.1.clone()),
+                r_ids: V::B(b.2.clone()),
+                r_cid: al::CID_DEFAULT.to_vec(),
+                s_ctx: V::B(a.0.clone()),
+                s_idu: V::B(a.1.clone()),
+                s_ids: V::B(a.2.clone()),
+                s_cid: al::CID_DEFAULT.to_vec(),
+                c_ctx: V::B(b.0.clone()),
+                c_idu: V::B(b.1.clone()),
+                c_ids: V::B(b.2.clone()),
+            });
+        }
+    }
     // (iv) long values differing only in length or in the last byte, per dimension
     let mk = |n: usize, last: Option<u8>| {
         let mut v = vec![b'i'; n];
